@@ -23,6 +23,7 @@ echo "== baseline suite with the change (demo test files removed)"
 find . -name 'zz_seed*_test.go' -delete; (cd "$SRC/demo" && find . -name '*_test.go') | while read f; do rm -f "$f"; done
 /verif/tools/baseline.sh "$W/wt"
 cd /verif
+[ -n "${SKIP_REPO:-}" ] && { echo "== (checks on /repo skipped)"; exit 0; }
 echo "== checks on /repo with the patch applied"
 git -C /repo apply "$SRC/patch.diff" || { echo "patch does not apply to /repo"; exit 3; }
 for p in $PROPS; do ./run.sh $p quick 2>&1 | grep -E "^\s+\[(violated|undecided)\]|^VIOLATION|^$p " | cut -c1-400; done
